@@ -13,8 +13,8 @@ NOT_YET = {}
 HOOK_COMMITS = ["1460123bcc5a44e72392e65465c5bd0c424ce6e9"]  # PrefixFileSet::verif_snapshot behind --cfg servlin_verif (src/log/prefix_file_set.rs, Cargo.toml check-cfg)
 
 PROPS["C12"] = dict(
-    suites=["c12t", "c12"],
-    shards={"c12t": 8, "c12": 4},
+    suites=["c12t", "c12", "c12e"],
+    shards={"c12t": 8, "c12": 4, "c12e": 1},
     lean_modules=["ServlinVerif.Props.C12"],
     audit="Audit/C12.lean",
     rule="c12t: the real TokenSet driven exhaustively: every valid sequence up to depth 6 (thorough: 8) over {wait_token (only where a unit is free: it "
@@ -25,9 +25,12 @@ PROPS["C12"] = dict(
          "handler, malformed request, abort mid-head, abort mid-upload, keep-alive then close, two requests; the four kinds that the server ends (500, panic, drop, malformed) also with a client that keeps its socket open afterwards}, half of the histories dominated by one "
          "kind; handlers block on a harness gate that records the number of simultaneously entered handlers; gates are held until min(max_conns, gated "
          "clients) are inside, then opened one at a time; after the history max_conns fresh gated clients must all be inside simultaneously within 8 s. "
-         "Non-trivial = at least one take that had to fail / at least one connection ended abnormally.",
-    nontrivial=lambda tag, args, obs: ("O" in obs.split(" ")[0]) if tag == "c12t" else bool(re.search(r"[epdmauEPDM]", args[1])),
-    klass=lambda tag, args, obs: ("c12t:size=%s:len=%d" % (args[0], len(args[1]))) if tag == "c12t" else "c12:max_conns=%s:clients=%d" % (args[0], len(args[1])),
+         "c12e: 2 (5) servers with max_conns 1..4 run under a lowered descriptor limit (prlimit on the harness process): the descriptor table is filled so "
+         "that the client's socket takes the last descriptor and accept() fails with EMFILE 1..3 times (the client is starved for 250 ms, the "
+         "'too many open files' event is captured), then the descriptors are released: the client must be served and max_conns fresh gated clients "
+         "must all be inside simultaneously. Non-trivial = at least one take that had to fail / at least one connection ended abnormally / accept failed.",
+    nontrivial=lambda tag, args, obs: ("O" in obs.split(" ")[0]) if tag == "c12t" else (True if tag == "c12e" else bool(re.search(r"[epdmauEPDM]", args[1]))),
+    klass=lambda tag, args, obs: ("c12t:size=%s:len=%d" % (args[0], len(args[1]))) if tag == "c12t" else ("c12e:max_conns=%s" % args[0] if tag == "c12e" else "c12:max_conns=%s:clients=%d" % (args[0], len(args[1]))),
     explanation="Model/Server.lean: TokenSet as (size, units in the channel, live tokens); the accept loop as a four-state machine, connection tasks as "
                 "a count, every way a connection can end as one event (its token is dropped). Theorems over all event sequences / API sequences: "
                 "C12_tokens (units + live = size, live <= size), C12_drop_returns (try_send never finds the channel full), C12_take_iff, "
@@ -35,7 +38,7 @@ PROPS["C12"] = dict(
                 "C12_full_again (from any waiting state all free slots can be filled: max_conns serviced simultaneously).",
     trusted=["safina sync_channel / std mpsc bounded channel semantics (try_send, recv), Drop running when a task ends, panics or is cancelled (Rust)",
              "the gauge measures handlers inside the gate, i.e. connections being serviced in their handler; connections parked in read are bounded by the same tokens (model) but not observed by the gauge"],
-    assumptions=["accept failure by descriptor exhaustion (EMFILE) is proved on the model (C12_accept_failure_free) and not injected by the suite: lowering RLIMIT_NOFILE in-process needs libc, which the harness does not link"],
+    assumptions=["c12e needs the prlimit(1) tool to lower the harness process's soft RLIMIT_NOFILE; where it is missing or the injection does not take (client served while the table is full) the case is counted 'free', not as a failure"],
     level_text="Proof: invariant over all histories and schedules of the slot-pool / accept-loop transition system; partial (runtime): which Rust code "
                "paths end a connection task and that each drops its token is observed by the loopback histories, not proved.",
     level_note="Trusted: Lean kernel; model of src/token_set.rs, src/accept.rs, spawn glue of src/lib.rs (modelled, not verified) tied by suites c12t (exact) and c12 (loopback).",
